@@ -162,12 +162,12 @@ def _want_A(ctx, rxn, T, info, op):
     return pre / eff**(len(dens) - 1)
 
 
-def _want_Ea(ctx, rxn, method, T, units):
+def _want_Ea(ctx, rxn, method, T, units, P=7.0):
     from pmutt import constants as c
     q = {'E': 'HoRT', 'H': 'HoRT', 'G': 'GoRT'}[method[4]]
-    r = _sum(rxn.reactants, rxn.reactants_stoich, q, T)
-    p = _sum(rxn.products, rxn.products_stoich, q, T)
-    t = _sum(rxn.transition_state, rxn.transition_state_stoich, q, T) if rxn.transition_state is not None else None
+    r = _sum(rxn.reactants, rxn.reactants_stoich, q, T, P)
+    p = _sum(rxn.products, rxn.products_stoich, q, T, P)
+    t = _sum(rxn.transition_state, rxn.transition_state_stoich, q, T, P) if rxn.transition_state is not None else None
     if method[4] == 'E':
         val = (t - r)                 # unclamped, del_m = 1
     else:
@@ -283,7 +283,8 @@ def _want_A_noS(ctx, rxn, info, op):
 def h_EA(ctx, ncond, gas):
     from pmutt.io.chemkin import write_EA
     S, rx, info = _mech(ctx, False)
-    conds = [dict(T=ctx.real('T%d' % k, 300, 2000)) for k in range(ncond)]
+    # every run condition carries its own temperature and pressure
+    conds = [dict(T=ctx.real('T%d' % k, 300, 2000), P=ctx.real('P%d' % k, 0.1, 100)) for k in range(ncond)]
     out = write_EA(reactions=list(rx.values()), conditions=conds, write_gas_phase=gas, act_method_name='get_GoRT_act', ads_act_method='get_HoRT_act')
     lines = _lines(ctx, out)
     texts = [_text(l) for l in lines]
@@ -299,7 +300,8 @@ def h_EA(ctx, ncond, gas):
         ctx.true('%s: one value per run condition' % key, len(toks) == ncond)
         for k, tk in enumerate(toks[:ncond]):
             m = 'get_HoRT_act' if key == 'ads' else 'get_GoRT_act'
-            num_eq(ctx, '%s: EA/RT at condition %d' % (key, k), tk[1], _want_Ea(ctx, rx[key], m, conds[k]['T'], None))
+            num_eq(ctx, '%s: EA/RT at the temperature and pressure of condition %d' % (key, k), tk[1],
+                   _want_Ea(ctx, rx[key], m, conds[k]['T'], None, P=conds[k]['P']))
     col = [t for t in texts if t.startswith('!') and t.strip().endswith(str(ncond)) and set(t[1:].split()) <= set(map(str, range(1, ncond + 1)))]
     ctx.true('column header numbers the run conditions', len(col) == 1)
 
@@ -434,7 +436,8 @@ def h_reader(ctx, shape, arrow, spaced, params):
     ctx.true('exactly the one reaction line is read (comments, header, STICK, END skipped)' + region, len(rxns) == 1 and len(reactants) == 1 and len(products) == 1)
     if not (len(rxns) == 1 and len(reactants) == 1 and len(products) == 1):
         return
-    ctx.true('reaction text is the equation without the rate parameters', rxns[0] == ctx.string(eq_cells))
+    ctx.true('reaction text is the equation without the rate parameters (blanks aside)',
+             rxns[0].replace(' ', '') == ctx.string([c_ for c_ in eq_cells if c_ != ' ']))
     for key, names, st in (('R', reactants[0], r_st[0]), ('P', products[0], p_st[0])):
         side = 'reactants' if key == 'R' else 'products'
         ctx.true('%s: as many species as written (nothing else is taken for a species)' % side, len(names) == len(want[key]) and len(st) == len(want[key]))
